@@ -25,7 +25,7 @@ NOT_DECIDED = ['which texts the traceback regex accepts beyond its shape', 'mess
 
 
 def run(ctx):
-    for fn in (r1_exec_handler, r2_check_exception, r3_detail_stripping, r4_continuation, r5_regex_shape, r6_strip_details_bounds):
+    for fn in (r1_exec_handler, r2_check_exception, r3_detail_stripping, r4_continuation, r5_regex_shape, r6_strip_details_bounds, r7_run_state_is_forwarded):
         ctx.rep.rule(fn, ctx)
 
 
@@ -469,6 +469,12 @@ def _strip_details_cut_chain(ctx, f, g, rd, q, msg):
            'first line and text before the first colon are cut first, the dotted path is dropped last' if ok else
            'the class name is extracted by the cuts %s; required: newline and colon cuts (first occurrence, keep left) and only then the last-dot cut (keep right) -- '
            'otherwise a dot or colon inside the message changes the extracted name' % chain, anchor=q)
+
+
+def r7_run_state_is_forwarded(ctx):
+    """the flags that decide this property reach the comparison only through the run state: same clause as C05.R11"""
+    from . import c05
+    c05.r11_run_state_is_forwarded(ctx, rule='C03.R7')
 
 
 # ---------------------------------------------------------------------------
